@@ -118,6 +118,12 @@ func findSelectorExprViolation(
 	// Check different types of objects
 	switch obj := obj.(type) {
 	case *types.TypeName:
+		// An alias declaration may carry a @packageonly annotation of its own
+		if obj.IsAlias() {
+			if v := findTypeViolation(ctx, pkgPath, obj.Name(), expr.Pos()); v != nil {
+				return v
+			}
+		}
 		// An alias declared in another package denotes the type it was declared for
 		target := resolveTypeName(obj)
 		return findTypeViolation(ctx, target.Pkg().Path(), target.Name(), expr.Pos())
@@ -172,6 +178,12 @@ func findIdentViolation(
 
 	switch obj := obj.(type) {
 	case *types.TypeName:
+		// An alias declaration (of a dot-imported package) may carry a @packageonly annotation of its own
+		if obj.IsAlias() {
+			if v := findTypeViolation(ctx, pkgPath, obj.Name(), ident.Pos()); v != nil {
+				return v
+			}
+		}
 		// A local alias ("type A = other.T") is a reference to other.T
 		target := resolveTypeName(obj)
 		return findTypeViolation(ctx, target.Pkg().Path(), target.Name(), ident.Pos())
